@@ -308,6 +308,113 @@ class MembersPosition(Contract):
                  z3.Implies(z3.And(j >= 0, j < w.N), B.zreal(r.elem(j)) == z3.ToReal(w.CNT(j, w.EID(j)))))]
 
 
+class AnySite(Contract):
+    """call-site form of GroupAny + GroupSum + the lemma any.*: any(mask)[g] holds exactly when some member of g has the mask
+    (WIT(g): such a member)"""
+    name = f"{GPOP}.any"
+    prop = ()
+
+    def outcomes(self, I, ctx, a, old):
+        w = ctx.ghost["gw"]
+        mask = a["array"]
+        if a.get("role") is not None:
+            raise Unsupported("any() with a role at this call site")
+        ANYF = z3.Function(ctx.fresh_name("ANY"), z3.IntSort(), z3.BoolSort())
+        WIT = z3.Function(ctx.fresh_name("WIT"), z3.IntSort(), z3.IntSort())
+        g, i = z3.Int(ctx.fresh_name("g_any")), z3.Int(ctx.fresh_name("i_any"))
+        ctx.assume(z3.ForAll([g], z3.Implies(z3.And(g >= 0, g < w.G, ANYF(g)),
+                                             z3.And(WIT(g) >= 0, WIT(g) < w.N, w.EID(WIT(g)) == g, B.zbool(mask.elem(WIT(g))))), patterns=[ANYF(g)]))
+        mi = B.zbool(mask.elem(i))
+        ctx.assume(z3.ForAll([i], z3.Implies(z3.And(i >= 0, i < w.N, mi), ANYF(w.EID(i))), patterns=[w.EID(i)]))
+        ctx.ghost["any"] = (ANYF, WIT)
+        return ("return", nparr.NArr(w.G, lambda x: Sym(ANYF(B._z(x))), "bool", "any"))
+
+    def post(self, I, ctx, a, out, old):
+        return []
+
+
+class ValueFromPerson(Contract):
+    name = f"{GPOP}.value_from_person"
+    prop = ("C10",)
+    top_level = True
+    descr = ("for a role held by at most one member per group, every group gets the value of the member holding the role, whatever "
+             "the order in which persons are stored, and the default where nobody holds it")
+    inline = (f"{GPOP}.ordered_members_map",)
+
+    def setup(self, I, ctx, case):
+        w = GWorld(I, ctx, roles=True)
+        ctx.ghost["gw"] = w
+        w.role.fields["max"] = 1
+        w.role.fields["key"] = "first_parent"
+        i, i2 = z3.Int("i_u"), z3.Int("i2_u")
+        ctx.assume(z3.ForAll([i, i2], z3.Implies(z3.And(0 <= i, i < i2, i2 < w.N, w.INROLE(i), w.INROLE(i2)), w.EID(i) != w.EID(i2)),
+                             patterns=[z3.MultiPattern(w.INROLE(i), w.INROLE(i2))]))
+        D = ctx.fresh_real("default")
+        ctx.ghost["D"] = D
+        return {"self": w.pop, "array": w.array, "role": w.role, "default": Sym(D), "__w": w, "__D": D}
+
+    @staticmethod
+    def local_contracts():
+        d = GWorld.site_contracts(None)
+        d[AnySite.name] = AnySite()
+        d[f"{CPOP}.filled_array"] = rec(f"{CPOP}.filled_array", "filled_array",
+                                        [("return", lambda I, ctx, a: nparr.NArr(ctx.ghost["gw"].G, lambda g: a["value"], "float", "filled"))])
+        return d
+
+    @staticmethod
+    def _pairing_lemma(ctx, I, env):
+        """ghost statement before `result[entity_filter] = array[members_map][role_filter[members_map]]`: the groups with a
+        holder, in increasing order, and the groups of the holders taken in the order of the sorting permutation are the same
+        enumeration (lemma schema proved in this module's lemma library)"""
+        import ast
+        w = ctx.ghost["gw"]
+        ANYF, WIT = ctx.ghost["any"]
+        ev = lambda txt: I.eval(ctx, env, ast.parse(txt, mode="eval").body)
+        try:
+            mm = ev("members_map")
+            SIG, INV = mm.perm
+            enf = nparr.mask_enum(ctx, ev("entity_filter"))
+            en2 = nparr.mask_enum(ctx, ev("role_filter[members_map]"))
+        except Exception:
+            return          # the code no longer has the shape this ghost statement speaks about: no lemma, the proof must do without
+        f = lambda j: w.EID(SIG(en2.SEL(j)))
+        gf = lambda j: enf.SEL(j)
+        j, j2 = z3.Int(ctx.fresh_name("j_l")), z3.Int(ctx.fresh_name("j2_l"))
+        inc = lambda fn, c: z3.ForAll([j, j2], z3.Implies(z3.And(0 <= j, j < j2, j2 < c), fn(j) < fn(j2)))
+        wa = lambda x: enf.RNK(f(x))
+        wb = lambda x: en2.RNK(INV(WIT(gf(x))))
+        ctx.apply_lemma("increasing-enumerations-of-the-same-set-coincide",
+                        [("holders-in-sorted-order-have-increasing-groups", inc(f, en2.cnt)),
+                         ("groups-with-a-holder-are-enumerated-increasingly", inc(gf, enf.cnt)),
+                         ("every-holder's-group-is-a-group-with-a-holder",
+                          z3.ForAll([j], z3.Implies(z3.And(j >= 0, j < en2.cnt), z3.And(wa(j) >= 0, wa(j) < enf.cnt, gf(wa(j)) == f(j))))),
+                         ("every-group-with-a-holder-is-some-holder's-group",
+                          z3.ForAll([j], z3.Implies(z3.And(j >= 0, j < enf.cnt), z3.And(wb(j) >= 0, wb(j) < en2.cnt, f(wb(j)) == gf(j)))))],
+                        z3.And(en2.cnt == enf.cnt, z3.ForAll([j], z3.Implies(z3.And(j >= 0, j < enf.cnt), f(j) == gf(j)), patterns=[enf.SEL(j)])))
+
+    ghost_before = {("GroupPopulation.value_from_person", "result[entity_filter] ="): _pairing_lemma.__func__}
+
+    def post(self, I, ctx, a, out, old):
+        w, D = a["__w"], a["__D"]
+        if out[0] != "return" or not isinstance(out[1], nparr.NArr) or "any" not in ctx.ghost:
+            return [("returns-one-value-per-group", False)]
+        r = out[1]
+        ANYF, WIT = ctx.ghost["any"]
+        g = ctx.fresh_int("g")
+        rng = z3.And(g >= 0, g < w.G)
+        return [("one-value-per-group", B._z(r.n) == w.G),
+                ("a-group-with-a-holder-gets-the-holder's-value", z3.Implies(z3.And(rng, ANYF(g)), B.zreal(r.elem(g)) == w.A(WIT(g)))),
+                ("a-group-without-holder-gets-the-default", z3.Implies(z3.And(rng, z3.Not(ANYF(g))), B.zreal(r.elem(g)) == D))]
+
+    def probes(self, case):
+        return [{"callee": self.name, "script": NATIVE, "op": "value_from_person", "count": 3, "eid": eid, "values": [10.0, 20.0, 30.0, 40.0, 50.0, 60.0][:len(eid)],
+                 "inrole": inrole} for eid, inrole in (([1, 0, 0, 2, 0, 1], [True, False, True, False, False, False]),
+                                                       ([2, 1, 0], [True, True, True]), ([0, 0, 1], [False, True, False]), ([1, 1, 0, 0], [False, True, True, False]))]
+
+    def judge_native(self, I, case, call, nat):
+        return judge(nat)
+
+
 class ProjectorTransform(Contract):
     name = f"{PROJ}.projector.Projector.transform_and_bubble_up"
     prop = ("C10",)
@@ -418,6 +525,19 @@ def lemmas(prop, timeout_ms):
     mono = lambda x: C(x + 1) == C(x) + z3.If(M(x), 1, 0)
     L += [("positions-distinct.base", [], Q(z3.IntVal(0))),
           ("positions-distinct.step", [k >= 0, mono(k), mono(j), Q(k), z3.Implies(z3.And(j >= 0, j < k), C(j) <= C(k))], Q(k + 1))]
+    # two strictly increasing enumerations of the same set coincide (strong induction on the position); used by value_from_person
+    Fa = z3.Function("Fa_l", z3.IntSort(), z3.IntSort())
+    Fb = z3.Function("Fb_l", z3.IntSort(), z3.IntSort())
+    wa = z3.Function("wa_l", z3.IntSort(), z3.IntSort())
+    wb = z3.Function("wb_l", z3.IntSort(), z3.IntSort())
+    na, nb, p, x, y = z3.Ints("na nb p x y")
+    inc = lambda Ff, nn: z3.ForAll([x, y], z3.Implies(z3.And(0 <= x, x < y, y < nn), Ff(x) < Ff(y)), patterns=[z3.MultiPattern(Ff(x), Ff(y))])
+    a_in_b = z3.ForAll([x], z3.Implies(z3.And(0 <= x, x < na), z3.And(0 <= wa(x), wa(x) < nb, Fb(wa(x)) == Fa(x))), patterns=[Fa(x)])
+    b_in_a = z3.ForAll([x], z3.Implies(z3.And(0 <= x, x < nb), z3.And(0 <= wb(x), wb(x) < na, Fa(wb(x)) == Fb(x))), patterns=[Fb(x)])
+    ih = z3.ForAll([x], z3.Implies(z3.And(0 <= x, x < p), z3.And(x < nb, Fa(x) == Fb(x))), patterns=[Fa(x)])
+    allp = z3.ForAll([x], z3.Implies(z3.And(0 <= x, x < na), z3.And(x < nb, Fa(x) == Fb(x))), patterns=[Fa(x)])
+    L += [("increasing-enumerations-of-the-same-set-coincide.step", [inc(Fa, na), inc(Fb, nb), a_in_b, b_in_a, ih, p >= 0, p < na], z3.And(p < nb, Fa(p) == Fb(p))),
+          ("increasing-enumerations-of-the-same-set-coincide.length", [inc(Fa, na), inc(Fb, nb), a_in_b, b_in_a, na >= 0, nb >= 0, allp, na < nb], z3.BoolVal(False))]
     for name, hyps, goal in L:
         verdict, backend, model, dt = smt.prove(hyps, goal, timeout_ms=timeout_ms)
         recs.append({"name": "lemma." + name, "where": "contracts/c10_groups.py", "kind": "lemma", "verdict": verdict,
@@ -425,4 +545,4 @@ def lemmas(prop, timeout_ms):
     return recs
 
 
-CONTRACTS = [GroupSum(), GroupNbPersons(), GroupAny(), GroupProject(), MembersPosition(), ProjectorTransform(), ProjectorTransforms(), ProjectorTransformsFirst(), ProjectorTransformsRole()]
+CONTRACTS = [GroupSum(), GroupNbPersons(), GroupAny(), GroupProject(), MembersPosition(), ValueFromPerson(), ProjectorTransform(), ProjectorTransforms(), ProjectorTransformsFirst(), ProjectorTransformsRole()]
